@@ -112,7 +112,7 @@ def run_shard(spec, acc):
     quick = spec["tier"] == "quick"
     defs = [d for d in dbx.defs if d.supported and d.type in ("Single", "Fast")]
     defs = [d for k, d in enumerate(defs) if k % spec["n"] == spec["i"]]
-    n_cases = 40 if quick else 300
+    n_cases = 40 if quick else 3000
     for d in defs:
         for c in range(n_cases):
             prio, src, dst = rng.randrange(8), rng.randrange(254), rng.choice([255, rng.randrange(254)])
